@@ -33,17 +33,25 @@ func genC09(g *Gen, tier string) *Program {
 		kind  string
 		name  string
 	}
+	// in some programs a sanitizer is configured and the names are ones it
+	// rewrites: the string a metric is requested under is then not the string
+	// it is kept under
+	names := []string{"x", "y"}
+	if g.Bool(30) {
+		c.Sanitize = sanMenu[0]
+		names = []string{"x-1", "y.2"}
+	}
 	var script []step
 	for i := g.Range(2, 5); i > 0; i-- {
 		// children come in pairs whose registry keys have the same length ("a"/"b",
 		// k=v/k=w): a key buffer that is recycled too early then holds a complete,
 		// valid key of the sibling
-		script = append(script, step{g.Intn(5), kinds[g.Intn(4)], pick(g, "x", "y")})
+		script = append(script, step{g.Intn(5), kinds[g.Intn(4)], names[g.Intn(2)]})
 	}
 	// histograms use bucket sets that collide in the root's shared bucket cache;
 	// the set is tied to the name, so one identity always has one set
 	fam := collidingFamily(g)
-	specFor := map[string]*BucketSpec{"x": fam[0], "y": fam[1%len(fam)]}
+	specFor := map[string]*BucketSpec{names[0]: fam[0], names[1]: fam[1%len(fam)]}
 	for t := 0; t < n; t++ {
 		var ops []Op
 		have := map[int]int{0: 0}
